@@ -249,8 +249,33 @@ def handleMap (inp out : List String) : String :=
     reply same prop cls ("map " ++ m.str ++ " try " ++ exStr mt) (String.intercalate " " out)
   | _, _ => "ERR parse"
 
+/-- `C19.bboxi n x y … => rect … ls … mp … pg …` — i64 coordinates (beyond 2^53): `Rect::new` of the first two and the
+bounding rectangles of the line string / multi point / polygon of all of them are the component-wise extremes, as integers. -/
+def handleBboxI (inp out : List String) : String :=
+  let pin : P (List (Int × Int)) := do
+    let n ← nat
+    rep n (do let x ← int; let y ← int; pure (x, y))
+  let four : P (Int × Int × Int × Int) := do let a ← int; let b ← int; let c ← int; let d ← int; pure (a, b, c, d)
+  let pout : P ((Int × Int × Int × Int) × (Int × Int × Int × Int) × (Int × Int × Int × Int) × (Int × Int × Int × Int)) := do
+    lit "rect"; let r ← four; lit "ls"; let l ← four; lit "mp"; let m ← four; lit "pg"; let g ← four; pure (r, l, m, g)
+  match P.run pin inp, P.run pout out with
+  | some (c0 :: c1 :: rest), some (r, l, m, g) =>
+    let all := c0 :: c1 :: rest
+    let mn (f : Int × Int → Int) (cs : List (Int × Int)) : Int := cs.foldl (fun a c => if f c < a then f c else a) (f c0)
+    let mx (f : Int × Int → Int) (cs : List (Int × Int)) : Int := cs.foldl (fun a c => if f c > a then f c else a) (f c0)
+    let box (cs : List (Int × Int)) := (mn (·.1) cs, mn (·.2) cs, mx (·.1) cs, mx (·.2) cs)
+    let mr := box [c0, c1]
+    let mb := box all
+    let prop :=
+      if r != mr then "FAIL:rect-new-wrong-on-wide-integers"
+      else if l != mb || m != mb || g != mb then "FAIL:bounding-rect-not-extremes-on-wide-integers"
+      else "PASS"
+    reply (r == mr && l == mb && m == mb && g == mb) prop "type=i64-wide" (toString mr ++ " " ++ toString mb) (String.intercalate " " out)
+  | _, _ => "ERR parse"
+
 def handle (op : String) (inp out : List String) : Option String :=
   match op with
+  | "C19.bboxi" => some (handleBboxI inp out)
   | "C19.trav" => some (handleTrav inp out)
   | "C19.map" => some (handleMap inp out)
   | _ => none
